@@ -2,13 +2,30 @@
 
 package decoration // import "go.pennock.tech/tabular/texttable/decoration"
 
-// SimYield, when non-nil, is called at the registry's lock boundaries (never
-// with the lock held) so that a deterministic simulator can decide which
-// caller proceeds.  Only compiled in with the "verif" build tag.
+import "sync"
+
+// SimYield, when non-nil, is called at the registry's lock boundaries (before
+// every Lock and after every Unlock, never with the lock held) so that a
+// deterministic simulator can decide which caller proceeds.  Only compiled in
+// with the "verif" build tag.
 var SimYield func(site string)
 
 func simYield(site string) {
 	if f := SimYield; f != nil {
 		f(site)
 	}
+}
+
+// registryMutex is sync.Mutex plus a yield point on either side of every
+// critical section.
+type registryMutex struct{ mu sync.Mutex }
+
+func (m *registryMutex) Lock() {
+	simYield("registry.lock")
+	m.mu.Lock()
+}
+
+func (m *registryMutex) Unlock() {
+	m.mu.Unlock()
+	simYield("registry.unlock")
 }
